@@ -622,7 +622,7 @@ func (Area) Gen(r *rand.Rand, tier string, emit func(string)) {
 	}
 	// small-scope exhaustive schedules over the hand-over steps (service router): after the set-up (A owns 2, B claims 2)
 	// every schedule prefix over {A closes, B re-submits, lookups, B closes + lookup}, and with A dropping instead of closing
-	nh := 6
+	nh := 5
 	if thorough {
 		nh = 7
 	}
